@@ -778,12 +778,11 @@ class _Namespaces:
     def __delitem__(self, prefix):
         """deletes CSSNamespaceRule(s) with rule.prefix == prefix"""
         delrule = self.__findrule(prefix)
-        for i, rule in enumerate(
-            filter(lambda r: r.type == r.NAMESPACE_RULE, self.parentStyleSheet.cssRules)
-        ):
-            if rule == delrule:
-                self.parentStyleSheet.deleteRule(i)
-                return
+        if delrule is not None:
+            # by object: its index among all rules differs from the one
+            # among the namespace rules
+            self.parentStyleSheet.deleteRule(delrule)
+            return
 
         self._log.error('Prefix %s not found.' % prefix, error=xml.dom.NamespaceErr)
 
